@@ -4,6 +4,9 @@ Definition cparam_val (c : cparam) : val := VL [vopt VS (cp_typ c); vopt VS (cp_
 Definition table : list (string * (val -> val)) :=
   [ ("class_docstring", fun v =>   (* [doc, [[name, [typ|N, doc|N, default|N]]...]] -> str *)
        VS (class_docstring (as_str (arg 0 v)) (map (fun a => (as_str (arg 0 a), cparam_of (arg 1 a))) (as_list (arg 1 v)))));
+    ("class_body", fun v =>         (* [doc, [[name, [typ|N, doc|N, default|N]]...]] -> [[name, typ, value|N]...] *)
+       VL (map (fun b => VL [VS (b_name b); VS (b_typ b); vopt VS (b_value b)])
+               (k_body (emit_class (as_str (arg 0 v)) (map (fun a => (as_str (arg 0 a), cparam_of (arg 1 a))) (as_list (arg 1 v)))))));
     ("parse_class", fun v =>       (* [docstring|N, [[name, typ, value|N]...]] -> [doc, [[name, [typ, doc, default]]...]] *)
        let k := {| k_doc := as_opt_str (arg 0 v);
                    k_body := map (fun b => {| b_name := as_str (arg 0 b); b_typ := as_str (arg 1 b); b_value := as_opt_str (arg 2 b) |}) (as_list (arg 1 v)) |} in
